@@ -647,6 +647,9 @@ class QueryObjectDescriptor(CanBehaveLikeAVariable[T], ABC):
             yield values
             return
         var, remaining_vars = selected_vars[0], selected_vars[1:]
+        if isinstance(var, DomainMapping):
+            # a selected expression is evaluated for its value here, wherever else the same expression is used.
+            var._eval_parent_ = self
         for var_val in var._evaluate__(copy(values)):
             bound_values = copy(values)
             bound_values.update(var_val)
@@ -1175,8 +1178,10 @@ class DomainMapping(CanBehaveLikeAVariable[T], ABC):
         Whether this mapping stands in condition position (its value is interpreted as a boolean).
         """
         parent = self._parent_
-        if isinstance(parent, (LogicalOperator, QueryObjectDescriptor)):
+        if isinstance(parent, LogicalOperator):
             return True
+        if isinstance(parent, QueryObjectDescriptor):
+            return parent._child_ is self
         if isinstance(parent, ForAll):
             return parent.condition is self
         return parent is None and self._invert_
